@@ -10,7 +10,7 @@ CHECKS = {
    text="Every crate-local MIR body reachable from the three evaluation entry points - directly or through upstream generic code that calls back into hand-written Debug/Display/PartialEq/Clone/Drop impls - is scanned; every Assert terminator, integer arithmetic op, numeric cast and resolved callee is classified total/partial/silent. A pass means no reachable construct can panic or lose range, for all inputs; it is not a sample of inputs.",
    note=TB_MIR + "spec/callees.py classification of external callees (unclassified ones are assumed total and listed in the evidence); user functions and allocation failure excluded; 10 arithmetic-overflow sites are known findings, keyed by the operator cell in which they are met (node kind, operand types), not by the function they stand in."),
  "C02": dict(cat="other", ref="DESIGN.md §3.2", technique="tag-symbolic abstract interpretation of MIR; summary-vs-table comparison; tree-rewrite equivalence by abstract evaluation of concrete tree levels with the crate's own evaluator",
-   text="All 1540 (operator, operand-tag tuple) cells and the dispatch wiring of all 47 node kinds are read off the MIR and compared with a reviewed table. Decides that each cell is the designated operation on the designated operands in order with the designated error; does NOT decide numeric exactness of std/rust_decimal/chrono.",
+   text="All 1540 (operator, operand-tag tuple) cells and the dispatch wiring of all 47 node kinds are read off the MIR and compared with a reviewed table; the None and non-boolean rows of if / and / or (type errors) are cells of that table too. Decides that each cell is the designated operation on the designated operands in order with the designated error; does NOT decide numeric exactness of std/rust_decimal/chrono.",
    note=TB_MIR + "spec/optable.json (frozen from the fixed tree, reviewed); semantics of MIR primitives and named library functions as documented."),
  "C03": dict(cat="proof", ref="DESIGN.md §3.3", technique="exhaustive enumeration of the finite operand-tag domain by abstract interpretation of MIR; tree-rewrite equivalence for constructors / transformers",
    text="The tag domain is finite (10 value types): every operator x every operand-tag tuple without None is enumerated (1275 cells + if/and/or/equality rows); unsupported tuples must be exactly Err(InvalidType) on every path, supported arithmetic cells must not convert operands. Exhaustive, so a proof over types given the trusted base.",
